@@ -15,7 +15,7 @@
 EXTENDS Bid, Elem, Json, TLC
 
 CONSTANTS ModeSet,     \* rounding modes to enumerate (a subset of Modes)
-          Families     \* which families of calls: a subset of {"unary", "pow", "bin", "quorem", "minmax", "cmp"}
+          Families     \* which families of calls: a subset of {"unary", "pow", "bin", "quorem", "minmax", "cmp", "quant", "codec", "int", "text", "scale"}
 
 VARIABLE c
 vars == <<c>>
@@ -55,7 +55,34 @@ MinMaxCase(op, x, y) == Case(x, y, [op |-> op, a |-> 1, b |-> 2, d |-> 3, exp |-
                                     exp2 |-> Plain(x), bits |-> << >>, skip |-> FALSE])
 CmpCase(x, y) == Case(x, y, [op |-> "Cmp", a |-> 1, b |-> 2, cmp |-> CmpSem(x, y)])
 
+\* the remaining families use the step records of Calc (same replay)
+QuantResult(f, x, dp, m) ==
+  LET r == CASE f = "Round" -> RoundSem(x, dp, m) [] f = "Ceil" -> CeilSem(x, dp) [] f = "Floor" -> FloorSem(x, dp)
+  IN IF r.t = "same" THEN Plain(x) ELSE Plain(r.v)
+QuantCase(f, x, dp, m) ==
+  Case(x, x, [op |-> f, a |-> 1, d |-> 3, m |-> m, dp |-> dp, exp |-> QuantResult(f, x, dp, m), exp2 |-> Plain(x), bits |-> << >>, skip |-> FALSE])
+Simple(op, x, v) == Case(x, x, [op |-> op, a |-> 1, d |-> 3, exp |-> Plain(v), exp2 |-> Plain(x), bits |-> << >>, skip |-> FALSE])
+IntCase(ty, x) ==
+  LET t == ToIntSem(x, ty) IN
+  Case(x, x, [op |-> "Int", ty |-> ty, a |-> 1, d |-> 3, exp |-> Plain(Fin(t[1], t[2], 0)), exp2 |-> Plain(x), bits |-> << >>, skip |-> FALSE])
+ScaleCase(x, k) ==
+  Case(x, x, [op |-> "Ldexp", a |-> 1, d |-> 3, k |-> k, exp |-> Plain(Resolve(LdexpExact(x, k), RNE)), exp2 |-> Plain(x), bits |-> << >>, skip |-> FALSE])
+DpSet == {0 - 34, 0 - 1, 0, 1, 2, 33, 34}
+KSet == {0 - 6200, 0 - 40, 0 - 1, 0, 1, 35, 6150}
+IntTypes == {"int64", "int32", "uint64", "uint32"}
+
 Init ==
+  \/ "quant" \in Families /\ \E x \in Reps, dp \in DpSet :
+        \/ \E m \in ModeSet : c = QuantCase("Round", x, dp, m)
+        \/ \E f \in {"Ceil", "Floor"} : c = QuantCase(f, x, dp, 0)
+  \/ "codec" \in Families /\ \E x \in Reps :
+        \/ \E f \in {"Binary", "Sql"} : c = Simple(f, x, x)
+        \/ x.k = "fin" /\ c = Simple("Json", x, x)
+  \/ "int" \in Families /\ \E x \in Reps, ty \in IntTypes : x.k # "nan" /\ c = IntCase(ty, x)
+  \/ "text" \in Families /\ \E x \in Reps : c = Simple("Text", x, IF x.k = "nan" THEN x ELSE ParseSem(StringSem(x), RNE).val)
+  \/ "scale" \in Families /\ \E x \in Reps :
+        \/ \E k \in KSet : x.k # "nan" /\ c = ScaleCase(x, k)
+        \/ c = Simple("Frexp", x, x)
   \/ "unary" \in Families /\ \E op \in UnaryOps, x \in Reps : c = UnaryCase(op, x) /\ c # << >>
   \/ "pow" \in Families /\ \E x \in Reps, y \in Reps, m \in ModeSet : c = PowCase(x, y, m) /\ c # << >>
   \/ "bin" \in Families /\ \E op \in BinOps, x \in Reps, y \in Reps, m \in ModeSet : c = BinCase(op, x, y, m)
